@@ -97,6 +97,7 @@ def make_cases(rng, n, tier):
             m["PICAP"] = 100000
         m["undef"] = rng.choice([0, -7, "-inf"])
         rep = dict(REPS[rng.randrange(len(REPS))])
+        rep["abs_int"] = rng.random() < 0.3
         if not rep["explicit_list"] and not gen.ghost_closed(m):
             rep["explicit_list"] = True      # ghost successors outside the inferred list: C06's business
         cases.append({"m": m, "rep": rep})
@@ -334,8 +335,9 @@ def judge_one(ctx, i, c, orc, outs, by, jby):
             b = 1e-10
             stopped = o["converged"]
         else:
-            stopped = o["iterations"] < m["CAP"] - 1 or o["converged"]
-            stopped = o["iterations"] + 1 < m["CAP"]
+            # judged when the loop stopped by its residual test - or when the planner itself reports
+            # convergence (a run cut by the cap must not be reported as converged)
+            stopped = o["iterations"] + 1 < m["CAP"] or o["converged"]
             if g < 1:
                 b = eps / (1 - float(g))
             else:
